@@ -360,3 +360,124 @@ def replay_dict(case, model, rec):
 def replay_eq(case, model, rec):
     bad = [(l, w, g) for l, w, g in eq_matrix() if w != g]
     return {"reproduced": bool(bad), "observed": bad}
+
+
+# --------------------------------------------------------------------------------------
+# C16: sub-domain extraction against a point-in-region oracle
+# --------------------------------------------------------------------------------------
+def extract_case(seed):
+    import copy
+    import numpy as np
+    import osyris as osy
+    from osyris.spatial import extract_box, extract_sphere
+
+    rng = random.Random(seed)
+    nmesh = rng.randint(1, 40)
+    scale = {"m": 1.0, "cm": 0.01, "km": 1000.0}
+
+    def pos(n, u):
+        return osy.Vector(*[osy.Array(values=np.array([rng.randint(-4, 4) * 0.5 for _ in range(n)]) / scale[u], unit=u)
+                            for _ in range(3)])
+
+    ds = osy.Dataset()
+    ds.meta["time"] = 1.0
+    um = rng.choice(list(scale))
+    layout = rng.choice(["mesh_only", "mesh_part", "mesh_hydro_like", "mesh_other_shape", "all"])
+    g = osy.Datagroup()
+    g["position"] = pos(nmesh, um)
+    g["val"] = osy.Array(values=np.arange(float(nmesh)), unit="K")
+    ds["mesh"] = g
+    if layout in ("mesh_part", "all"):
+        npart = rng.randint(1, 20)
+        p = osy.Datagroup()
+        p["position"] = pos(npart, rng.choice(list(scale)))
+        p["mass"] = osy.Array(values=np.arange(float(npart)), unit="g")
+        ds["part"] = p
+    if layout in ("mesh_hydro_like", "all"):
+        e = osy.Datagroup()
+        e["val"] = osy.Array(values=np.arange(float(nmesh)) * 2, unit="K")
+        ds["extra"] = e
+    if layout in ("mesh_other_shape", "all"):
+        s = osy.Datagroup()
+        s["val"] = osy.Array(values=np.arange(float(nmesh + 1)), unit="K")
+        ds["sink"] = s
+    uo, ur = rng.choice(list(scale)), rng.choice(list(scale))
+    o = [rng.randint(-2, 2) * 0.5 for _ in range(3)]
+    origin = osy.Vector(*[osy.Array(values=v / scale[uo], unit=uo) for v in o])
+    size = rng.choice([0.0, 0.5, 1.0, 1.5, 3.0, 100.0])
+    before = copy.deepcopy(ds)
+    kind = rng.choice(["sphere", "box"])
+    import warnings
+
+    with warnings.catch_warnings():
+        warnings.simplefilter("ignore")
+        if kind == "sphere":
+            sub = extract_sphere(ds, osy.Array(values=size / scale[ur], unit=ur), origin)
+        else:
+            sz = [osy.Array(values=2 * size / scale[ur], unit=ur) for _ in range(3)]
+            sub = extract_box(ds, sz[0], sz[1], sz[2], origin)
+    # oracle
+    for name in ds.keys():
+        grp = ds[name]
+        src = grp if "position" in grp else (ds["mesh"] if grp.shape == ds["mesh"].shape else None)
+        if src is None:
+            if name in sub.keys():
+                return "group %s without positions was extracted" % name
+            continue
+        P = src["position"]
+        xyz = np.stack([np.asarray(getattr(P, c).to("m").values, dtype=float) for c in "xyz"], axis=1)
+        d = xyz - np.array(o)
+        if kind == "sphere":
+            dist = np.sqrt((d ** 2).sum(axis=1))
+            inside = dist < size
+            if (np.abs(dist - size) < 1e-9 * max(size, 1.0)).any():
+                return None  # a row within rounding of the boundary: unit conversion noise decides
+        else:
+            inside = (np.abs(d) <= size).all(axis=1)
+            if (np.abs(np.abs(d) - size) < 1e-9 * max(size, 1.0)).any() and um != "m":
+                return None
+        if not inside.any():
+            if name in sub.keys():
+                return "group %s has no row inside but is present" % name
+            continue
+        if name not in sub.keys():
+            return "group %s has rows inside but is missing (%s, layout %s)" % (name, kind, layout)
+        for k in grp.keys():
+            want = grp[k][inside]
+            got = sub[name][k]
+            wl = [np.asarray(c.values) for c in (want._xyz.values() if isinstance(want, osy.Vector) else [want])]
+            gl = [np.asarray(c.values) for c in (got._xyz.values() if isinstance(got, osy.Vector) else [got])]
+            if len(wl) != len(gl) or any(not np.array_equal(a, b) for a, b in zip(wl, gl)) or got.unit != want.unit:
+                return "rows of %s/%s differ (%s)" % (name, k, kind)
+    if sub.meta != ds.meta or sub.meta is ds.meta:
+        return "meta not carried over as a copy"
+    for name in before.keys():
+        if not (before[name] == ds[name]) or list(before[name].keys()) != list(ds[name].keys()):
+            return "input dataset modified (%s)" % name
+    return None
+
+
+def sweep_c16(tier, seed):
+    n = 300 if tier == "quick" else 6000
+    viol = []
+    for k in range(n):
+        try:
+            err = extract_case(seed * 7919 + k)
+        except Exception as e:
+            err = "exception %r" % (e,)
+        if err:
+            viol.append({"name": "C16.native.extract", "input": {"case_seed": seed * 7919 + k}, "observed": err})
+            break
+    return {"status": "violation" if viol else "ok", "cases": n, "distinct": n, "violations": viol,
+            "samples": [{"case_seed": seed * 7919}], "kind": "bounded-native"}
+
+
+def replay_extract(case, model, rec):
+    for k in range(300):
+        try:
+            err = extract_case(31337 + k)
+        except Exception as e:
+            err = "exception %r" % (e,)
+        if err:
+            return {"reproduced": True, "input": {"case_seed": 31337 + k}, "observed": err}
+    return {"reproduced": False}
